@@ -41,17 +41,27 @@ onto the (unnormalised) first row, normalised at the end -/
 def gsRow1 (r : K → K) (x y : Fin (n + 1) → K) : Fin (n + 1) → K :=
   normalize r (fun i => y i - mproj y x i)
 
-/-- row 0 of `Point.origin_to().matrix`: `find_isometry(minkowski, [normalize(x)])` -/
-def originToRow0 (r : K → K) (x : Fin (n + 1) → K) : Fin (n + 1) → K :=
-  gsRow0 r (normalize r x)
+/-- `np.where(normed[..., :1] < 0, -1, 1)`: `-1` for a representative on the lower sheet -/
+def sheetSign (x : Fin (n + 1) → K) : K := if x 0 < 0 then -1 else 1
 
-/-- rows 0 and 1 of `TangentVector.origin_to().matrix`:
-`find_isometry(minkowski, normalize(aux_data))` with `aux_data = (p, projHyp p v)` -/
+/-- the representative on the upper sheet of the hyperboloid: `normed * sheetSign` -/
+def upperSheet (x : Fin (n + 1) → K) : Fin (n + 1) → K := fun i => sheetSign x * x i
+
+/-- row 0 of `Point.origin_to().matrix` (repaired, C12: the upper-sheet representative of the
+normalised point is used): `find_isometry(minkowski, [±normalize(x)])` -/
+def originToRow0 (r : K → K) (x : Fin (n + 1) → K) : Fin (n + 1) → K :=
+  gsRow0 r (upperSheet (normalize r x))
+
+/-- rows 0 and 1 of `TangentVector.origin_to().matrix` (repaired, C12):
+`find_isometry(minkowski, σ·normalize(aux_data))` with `aux_data = (p, projHyp p v)` and the one
+sign `σ = sheetSign(normalize p)` applied to both rows — `(x, v)` and `(-x, -v)` are the same
+tangent vector -/
 def tvOriginToRow0 (r : K → K) (p _v : Fin (n + 1) → K) : Fin (n + 1) → K :=
-  gsRow0 r (normalize r p)
+  gsRow0 r (upperSheet (normalize r p))
 
 def tvOriginToRow1 (r : K → K) (p v : Fin (n + 1) → K) : Fin (n + 1) → K :=
-  gsRow1 r (normalize r p) (normalize r (projHyp p v))
+  gsRow1 r (upperSheet (normalize r p))
+    (fun i => sheetSign (normalize r p) * normalize r (projHyp p v) i)
 
 /-- `TangentVector.normalized()`: same point, vector `normalize(self.vector)`; the stored
 `.vector` of the result is again projected (`_compute_aux_data`) -/
